@@ -79,6 +79,21 @@ def dispatch (f : String) (j : Json) : Option Json :=
         return Json.mkObj [("lines", ofLines r),
                            ("po", Json.arr #[ofNat po.1, ofInt po.2.1, ofInt po.2.2.1, ofInt po.2.2.2])]
       | _ => return err "bad a"
+  | "C04.place" => some <| Id.run do
+      -- lines, put (as spliced: continuation lines already indented), a = [ln, col, endLn, endCol], pts = [[l, byteCol], ...]
+      let some L := (get j "lines").bind asStrs | return err "bad lines"
+      let some put := (get j "put").bind asStrs | return err "bad put"
+      let some a := (get j "a").bind asNats | return err "bad a"
+      let some pts := (get j "pts").bind asArr | return err "bad pts"
+      match a with
+      | [ln, col, endLn, endCol] =>
+        let L := toLines L
+        let put := toLines put
+        let placed := pts.map (fun q => match asNats q with
+          | some [l, b] => ofNats [placeLn ln l, placeColBytes L ln col l b]
+          | _ => err "bad pt")
+        return Json.mkObj [("lines", ofLines (putSrc L put ln col endLn endCol)), ("placed", Json.arr placed)]
+      | _ => return err "bad a"
   | "C04.get_src" => some <| Id.run do
       let some L := (get j "lines").bind asStrs | return err "bad lines"
       let some a := (get j "a").bind asNats | return err "bad a"
